@@ -418,7 +418,14 @@ func checkC08(c *Check) {
 	// reply loop: Addr of outgoing message is ReadFrom's address or OriginalAddr when non-empty
 	{
 		good := false
-		allInstrs(recvLoop, func(in ssa.Instruction) {
+		var replyFns []*ssa.Function
+		for _, fn := range p.RepoFns {
+			if pk := fnPkg(fn); pk != nil && pk.Pkg.Path() == pServer {
+				replyFns = append(replyFns, fn)
+			}
+		}
+		for _, rf := range replyFns {
+		allInstrs(rf, func(in ssa.Instruction) {
 			st, ok := in.(*ssa.Store)
 			if !ok {
 				return
@@ -452,8 +459,11 @@ func checkC08(c *Check) {
 					}
 				}
 			}
-			good = hasOrig && hasRead
+			if hasOrig || hasRead {
+				good = hasOrig && hasRead
+			}
 		})
+		}
 		c.Req(good, "C08.R3:reply-uses-original", r3, p.Pos(recvLoop.Pos()), "replies of a hooked session are not reported from the original address")
 	}
 
